@@ -6,7 +6,7 @@ from __future__ import annotations
 import ast
 import re
 
-from tiv.astutil import body_walk, call_name, dotted, enclosing_stmt, norm, short, stores_in, walk_local
+from tiv.astutil import ancestors as _anc17, body_walk, call_name, dotted, enclosing_stmt, norm, short, stores_in, walk_local
 from tiv.match import find_stmts, match_expr, match_stmt
 from tiv.affine import NotPoly, equal, parse
 from tiv.mutate import M
@@ -176,6 +176,20 @@ def run(ck, m):
     loops = [n for n in text_if.body if isinstance(n, ast.For)]
     rng = [norm(n.iter) for n in loops]
     ck.ob("R2", text_if, rng == ["range(new_pad_top)", "image_lines", "range(new_pad_bottom)"], f"rows are yielded as top padding, image rows, bottom padding; found {rng}", stmt="content: top padding, image, bottom padding")
+
+    # every yielded row is an object of its own: a list that is built once, modified in place and yielded again on every iteration is ONE object -
+    # a consumer that collects the rows (list(canvas.content(...)), a row buffer, a diff against the previous frame) then sees every row as the last
+    from rules.common import IN_PLACE as _INPL17
+    for y_ in [n for n in body_walk(ct) if isinstance(n, ast.Yield) and isinstance(n.value, ast.Name)]:
+        nm_ = y_.value.id
+        loop_ = next((a_ for a_ in _anc17(y_) if isinstance(a_, (ast.For, ast.While))), None)
+        if loop_ is None:
+            continue
+        bound_in = any(isinstance(t_, ast.Name) and t_.id == nm_ for st_ in loop_.body for t_, _s in stores_in(st_))
+        muts_ = [x for st_ in loop_.body for x in ast.walk(st_) if (isinstance(x, ast.Subscript) and isinstance(x.ctx, (ast.Store, ast.Del)) and isinstance(x.value, ast.Name) and x.value.id == nm_)
+                 or (isinstance(x, ast.Call) and isinstance(x.func, ast.Attribute) and isinstance(x.func.value, ast.Name) and x.func.value.id == nm_ and x.func.attr in _INPL17)]
+        ck.ob("R2", enclosing_stmt(y_), bound_in or not muts_, f"`yield {nm_}` hands out, on every iteration, the one list bound before the loop and modified in place inside it (`{short(muts_[0], 40) if muts_ else ''}`): "
+              "rows already handed out change under the consumer - collected rows all show the last image line", stmt=f"content: each yielded row is a fresh object (yield {nm_})")
 
     # slices of the held lines with two explicit offsets `[lo:hi]`: the number of rows taken (hi - lo) must be the number of visible rows
     # (a count used as the end index is only right while lo == 0); `[lo:-n or None]` counts from the end and is not touched here
